@@ -245,6 +245,11 @@ theorem C17_walk (sem : TySem τ) (ai : Bool) (top : List (SN τ)) (p : List Tok
       have := proj_vnode sem ai t.length t rfl c [h]
       simpa using this
 
+/-- the same with unions as leaf types (a value is accepted iff a member accepts it: `unionSem`): the theorem is about
+    any type semantics -/
+theorem C17_walk_union (sem : TySem τ) (ai : Bool) (top : List (SN (List τ))) (p : List Tok) :
+    proj (vtree (unionSem sem) ai top p) = walkTop (unionSem sem) ai top p := C17_walk (unionSem sem) ai top p
+
 /-- accepted by the code iff it walks the data view -/
 theorem C17_accept_iff (sem : TySem τ) (ai : Bool) (top : List (SN τ)) (p : List Tok) :
     vtree sem ai top p = .ok () ↔ walkTop sem ai top p = .ok := by
